@@ -73,7 +73,7 @@ def hist_scripts(lines, kt_model, limit, seed):
             steps.append({"op": "decode", "h": h, "kt": kt, "tag": "mc_pre",
                           "input": {"rec": {"seq": t["seq"], "pairs": t["pairs"], "sig": {"by": t["by"]}}}})
             steps.append({"op": "call", "h": h, "m": c["m"], "args": args, "signer": name[c["signer"]], "fault": fault,
-                          "obs": "full" if n % 7 == 0 else "core"})
+                          "obs": "full" if (n % 7 == 0 or '"cross"' in body) else "core"})
         scripts.append({"sid": "mch-%s-%d" % (kt_model, n), "steps": steps})
     return scripts, len(uniq), len(seen)
 
